@@ -64,7 +64,7 @@ MATRIX[("S", "proof_update", "hashes")] = ["empty_first_bit", "one_short_last_bi
 MATRIX[("S", "from_db", "root")] = BYTES_BAD + ["short", "long"]
 MATRIX[("S", "calc_root", "key")] = BYTES_BAD
 MATRIX[("S", "calc_root", "value")] = BYTES_BAD
-MATRIX[("S", "calc_root", "branch")] = ["short", "long"]
+MATRIX[("S", "calc_root", "branch")] = ["short", "long", "one_for_empty_key"]
 MATRIX[("S", "proof_ctor", "key")] = BYTES_BAD
 MATRIX[("S", "proof_ctor", "value")] = BYTES_BAD
 MATRIX[("S", "proof_ctor", "branch")] = ["short", "long"]
@@ -438,6 +438,9 @@ class SW(BadMixin, c14.SWorld):
             ks2 = (ks, ks % 32 + 1, 1 if ks > 1 else 2)[self.ev % 3]
             d2 = self.default if self.ev % 2 else b"another default"
             fn = lambda: SparseMerkleTree.from_db(db, x, key_size=ks2, default=d2)
+        elif arg == "branch" and kind == "one_for_empty_key":
+            # the zero-length key has a zero-length branch; one sibling is one too many
+            fn = lambda: calc_root(b"", v, (bytes(32),))
         elif arg == "branch":
             fn = {"calc_root": lambda: calc_root(k, v, x), "proof_ctor": lambda: SparseMerkleProof(k, v, x)}[entry]
         else:
